@@ -4,7 +4,8 @@
    membership operations), for every configuration and every operation list. *)
 From Coq Require Import String.
 From Coq Require Import ZArith List Bool.
-From FxV Require Import gen.Gen_Attest model.M_Attest proofs.P_Attest proofs.P_AttestGen.
+From FxV Require Import gen.Gen_Attest model.M_Attest proofs.P_Attest proofs.P_AttestGen proofs.P_AttestTree.
+From FxV Require Import gen.Gen_AttestFacts.
 Import ListNotations.
 Open Scope list_scope.
 Open Scope Z_scope.
@@ -48,7 +49,35 @@ Theorem C01_observed_only_next : forall c s x n cl a',
 Proof. exact observed_only_next. Qed.
 Print Assumptions C01_observed_only_next.
 
-(* ---- PRIMARY (the code as it is since /repo 9161b71: UnbondedOracle keeps the per-oracle cursor, no cursor lift;
+(* ---- ON THIS TREE: gen/Gen_AttestFacts.v is written on every run by `harness/c01 -facts`, which executes the probes on
+        the real keeper of the tree under test.  The repair of C01-1 is pinned: if it is reverted the generated constant
+        flips and C01_tree_cfg_is_repaired (with everything instantiated at gen_tree_cfg) no longer checks ---- *)
+Theorem C01_tree_cfg_is_repaired :
+  c_unbond_del gen_tree_cfg = false /\ c_cursor_clamp gen_tree_cfg = false /\ 0 <= c_threshold gen_tree_cfg.
+Proof. exact tree_cfg_is_repaired. Qed.
+Print Assumptions C01_tree_cfg_is_repaired.
+
+(* no hypothesis about the code: every history of this tree, every oracle *)
+Theorem C01_oracle_no_second_vote_on_tree : forall h w,
+  incr (nonces_of w (vlog (run gen_tree_cfg init h))) /\ NoDup (nonces_of w (vlog (run gen_tree_cfg init h))).
+Proof. exact no_second_vote_on_tree. Qed.
+Print Assumptions C01_oracle_no_second_vote_on_tree.
+
+Theorem C01_oracle_contiguous_on_tree : forall h w,
+  guarded gen_tree_cfg no_restart init h ->
+  consec (nonces_of w (vlog (run gen_tree_cfg init h))) /\ NoDup (nonces_of w (vlog (run gen_tree_cfg init h))).
+Proof. exact contiguous_on_tree. Qed.
+Print Assumptions C01_oracle_contiguous_on_tree.
+
+(* the history of the former finding (corpus/C01/rebond-double-count.json) on this tree's configuration: refused *)
+Theorem C01_rebond_refused_on_tree :
+  let s := run gen_tree_cfg init h_rebond in
+  last_obs s = 0 /\ nonces_of 0 (vlog s) = [1] /\
+  exists a, aget keq (1, 1) (atts s) = Some a /\ a_obs a = false /\ a_votes a = [0; 1].
+Proof. exact rebond_refused_on_tree. Qed.
+Print Assumptions C01_rebond_refused_on_tree.
+
+(* ---- GENERAL (any configuration whose code keeps the cursor on unbond; since /repo 9161b71: UnbondedOracle keeps the per-oracle cursor, no cursor lift;
         both facts are probed on the real keeper on every run and arrive as c_unbond_del / c_cursor_clamp) ---- *)
 
 (* an oracle never has two accepted votes for one nonce — every history, every oracle, incl. unbond + re-bond and
@@ -114,6 +143,16 @@ Theorem C01_prefix_revote_refuted :
               100 * dpower (oracles s) (a_votes a) + 99 < 66 * last_total s.
 Proof. exact revote_refuted. Qed.
 Print Assumptions C01_prefix_revote_refuted.
+
+(* the same, about the explicit variant cfg0 (c_unbond_del := true) and the explicit history, evaluated by vm_compute *)
+Theorem C01_prefix_revote_refuted_explicit :
+  c_unbond_del cfg0 = true /\
+  let s := run cfg0 init h_rebond in
+  exists a, aget keq (1, 1) (atts s) = Some a /\ a_obs a = true /\ last_obs s = 1 /\
+            a_votes a = [0; 1; 0] /\ nonces_of 0 (vlog s) = [1; 1] /\
+            last_total s = 1000 /\ dpower (oracles s) (a_votes a) = 500.
+Proof. exact revote_refuted_explicit. Qed.
+Print Assumptions C01_prefix_revote_refuted_explicit.
 
 (* a parked claim runs its effects at most once *)
 Theorem C01_exec_once : forall c h, NoDup (effects (run c init h)).
